@@ -372,7 +372,9 @@ def gen_cases(tier, seed):
         cases.append(h)
     n_exh = len(cases)
     if tier != 'quick':
-        for h in itertools.product(adds, adds, adds, ops3):
+        # depth 4: the first three layers without the in-order-with-index variants (they are covered at depth 2 and 3)
+        adds4 = [o for o in adds if not (o[0] == 'ins' and o[3] and o[2] is not None)]
+        for h in itertools.product(adds4, adds4, adds4, ops3):
             cases.append(h)
         n_exh = len(cases)
     big_rules = RULES + ['c2', 'n:2:1', 'n:2:2', 'n:1:2', 'n:0:1', 's:1', 's:2', 's:0']
